@@ -33,6 +33,29 @@ func permutations(n int) [][]int {
 // checkArrivalOrderIndependence interprets every index re-ordering consumer on every arrival order of a
 // small batch (one record of which is the reference record where the writer treats it specially):
 // the bytes written (or records forwarded) must not depend on the arrival order.
+// arrivalVerdicts caches, per consumer name, whether its output was the same under all 24 arrival orders of a batch of
+// four (decided) - the deciding argument where the structural re-order pattern is not recognised.
+var arrivalVerdicts = map[string][2]bool{} // name -> {decided, independent}
+
+// arrivalOrderDecides: is the named consumer ("pkg.func") one of the interpreted re-orderers, and does it give the same
+// output whatever the arrival order?
+func arrivalOrderDecides(c *core.Ctx, name string) (decided, independent bool) {
+	if v, ok := arrivalVerdicts[name]; ok {
+		return v[0], v[1]
+	}
+	saveObs, saveCounts := c.Obs, c.Counts
+	c.Counts = map[string]int{}
+	checkArrivalOrderIndependence(c, "probe", name)
+	for _, o := range c.Obs[len(saveObs):] {
+		if strings.HasSuffix(o.Key, "/"+name+"/arrival-order-independence") {
+			decided, independent = true, o.Status == core.OK.String()
+		}
+	}
+	c.Obs, c.Counts = saveObs, saveCounts
+	arrivalVerdicts[name] = [2]bool{decided, independent}
+	return
+}
+
 func checkArrivalOrderIndependence(c *core.Ctx, rule string, only ...string) int {
 	n := 0
 	want := func(name string) bool {
